@@ -175,6 +175,26 @@ func (fr *Frame) call(st *State, in ssa.Instruction, c *ssa.CallCommon, v ssa.Va
 		// interface method contract
 		name := fmt.Sprintf("(%s).%s", types.TypeString(c.Value.Type(), nil), c.Method.Name())
 		if sp := r.eng.specs.Funcs[name]; sp != nil {
+			if sp.Pure && sp.Trusted && sig.Results().Len() == 1 {
+				// a trusted pure interface method: the same uninterpreted function of receiver and arguments that a
+				// contract mentioning the call evaluates to (not a fresh value per call)
+				cxp := fr.newCtx(st, nil, true)
+				msig := c.Method.Type().(*types.Signature)
+				var tvs []TV
+				okArgs := true
+				for i, a := range args[1:] {
+					if i >= msig.Params().Len() {
+						okArgs = false
+						break
+					}
+					tvs = append(tvs, r.toTV(st, a, msig.Params().At(i).Type()))
+				}
+				if okArgs {
+					if tv, err := cxp.ifaceSpecCall(r.toTV(st, recv, c.Value.Type()), c.Method, tvs); err == nil {
+						fr.overrideRes = tv
+					}
+				}
+			}
 			return fr.applyContract(st, sp, nil, sig, args, recvAndParams(c.Method.Type().(*types.Signature), "recv"), name)
 		}
 		if res, ok := fr.nativeInvoke(st, c, args); ok {
@@ -543,6 +563,10 @@ func (fr *Frame) applyContract(st *State, sp *FuncSpec, fn *ssa.Function, sig *t
 				res = tv
 			}
 		}
+	}
+	if fr.overrideRes != nil {
+		res = fr.overrideRes
+		fr.overrideRes = nil
 	}
 	bindResults(binds, sig, res)
 	cx2 := &evalCtx{fr: fr, run: r, st: st, old: pre, binds: binds, btypes: btypes, pkg: cx.pkg}
